@@ -18,6 +18,74 @@ func c09(c *core.Ctx) {
 	F := func(spec string) string { return st + "." + spec }
 
 	// -----------------------------------------------------------------------------------------
+	c.Clause("C09.1c", "colour follows content: when put or the in-place insert move an existing node's account into a newly made node, the new node keeps that node's dye, so that Collect(height) still finds what the block wrote")
+	c.Run("colour-follows-content", func() {
+		dyeF, dataF, keyF := c.FieldVar(F("PatriciaNode"), "dye"), c.FieldVar(F("PatriciaNode"), "data"), c.FieldVar(F("PatriciaNode"), "key")
+		total := 0
+		for _, spec := range []string{F("PatriciaTrie.put"), F("PatriciaTrie.insert")} {
+			fn := c.Fn(spec)
+			var keyParam *ssa.Parameter
+			for _, p := range fn.Params {
+				if b, ok := p.Type().Underlying().(*types.Basic); ok && b.Kind() == types.String {
+					keyParam = p
+				}
+			}
+			moved := 0
+			for _, b := range fn.Blocks {
+				for _, in := range b.Instrs {
+					al, ok := in.(*ssa.Alloc)
+					if !ok || !al.Heap || namedPtr(al.Type()) != "PatriciaNode" || al.Referrers() == nil {
+						continue
+					}
+					var dataVal, dyeVal ssa.Value
+					for _, r := range *al.Referrers() {
+						fa, isFA := r.(*ssa.FieldAddr)
+						if !isFA || fa.Referrers() == nil {
+							continue
+						}
+						for _, u := range *fa.Referrers() {
+							if st, isSt := u.(*ssa.Store); isSt && st.Addr == fa {
+								switch core.FieldOf(fa) {
+								case dataF:
+									dataVal = st.Val
+								case dyeF:
+									dyeVal = st.Val
+								}
+							}
+						}
+					}
+					// content moved from an existing node X: data = X.data
+					ld, isLd := dataVal.(*ssa.UnOp)
+					if !isLd {
+						continue
+					}
+					src, isFA := ld.X.(*ssa.FieldAddr)
+					if !isFA || core.FieldOf(src) != dataF {
+						continue
+					}
+					moved++
+					total++
+					okDye := false
+					if dl, isDl := dyeVal.(*ssa.UnOp); isDl {
+						if dfa, isD := dl.X.(*ssa.FieldAddr); isD && core.FieldOf(dfa) == dyeF && dfa.X == src.X {
+							okDye = true
+						}
+					}
+					name := shortFn(fn)
+					if keyParam != nil {
+						if mask, _ := lenSigns(b, keyParam, keyF); mask == 1 {
+							c.CheckTrivial(name+"[prefix-branch]:moved-node-dye", "unreachable-shape", true, al.Pos(), "allow-listed: only reachable when len(key) < len(child.key), impossible while all keys of one trie have the same length (see fixed-length-keys)")
+							continue
+						}
+					}
+					c.Check(name+":moved-node-keeps-dye#"+string(rune('a'+moved-1)), "cow-ownership", okDye, al.Pos(), "a node made to carry an existing node's account must be coloured with that node's dye (found: %v)", dyeVal)
+				}
+			}
+		}
+		c.Floor("moved-content-literals", total, 4)
+	})
+
+	// -----------------------------------------------------------------------------------------
 	c.Clause("C09.1", "copy-on-write in PatriciaTrie.put: every write to memory of a node this activation did not allocate (a field, an element of its children array, "+
 		"an append/insert on that array, handing the node to a foreign callee) is dominated by the test node.dye == dye on that very node; "+
 		"a fresh node never shares a foreign node's children array; one branch is unreachable because all keys of a trie have one length")
